@@ -57,6 +57,9 @@ def tasks(tier, seed):
             for s in ("greedy", "greedy_worst"):
                 add("solver", 3, K, s, "exploitability", anyclass=True)
     fam4, _ = F.family(4, tier, seed)
+    for K in F.sample([k for k in fam4 if 4 <= len(k) <= 7], 6 if tier == "quick" else 32, seed, "c13any4"):
+        for s in ("greedy", "greedy_worst"):
+            add("solver", 4, K, s, "exploitability", anyclass=True)
     small = [k for k in fam4 if len(k) <= 2]
     pick = (small + F.sample(fam4, 64, seed, "c13n4")) if tier == "thorough" else (F.sample(small, 12, seed, "c13s") + F.sample([k for k in fam4 if 3 <= len(k) <= 8], 12, seed, "c13m"))
     for K in pick:
